@@ -77,6 +77,13 @@ let model_answer h (mh, at) (stores : Store.store array) (r : read) (k : int) : 
      | Merkle.VOk (_, l) -> Stdlib.String.concat "" (Stdlib.List.map (fun ((_, _), c) ->
          match c with Merkle.Confirmed _ -> "C" | Merkle.UnableToVerify -> "U" | Merkle.Invalid -> "I") l)
      | _ -> "E400")
+  | k when Stdlib.String.length k > 1 && k.[0] = 'H' ->
+    (match split_on 'c' (Stdlib.String.sub k 1 (Stdlib.String.length k - 1)) with
+     | [hs; cs] ->
+       let rows = Query.by_height_range s (z_of_int (int_of_string hs)) (Some (z_of_int (int_of_string cs))) in
+       let ids = Stdlib.List.sort Z.compare (Stdlib.List.map (fun x -> zt_of_n x.Store.id) rows) in
+       "L" ^ Stdlib.String.concat "+" (Stdlib.List.map Z.to_string ids)
+     | _ -> "?")
   | "h" ->
     let rows = Query.by_height_range s (z_of_int mh.(r.kb)) (Some (z_of_int 3)) in
     let ids = Stdlib.List.sort Z.compare (Stdlib.List.map (fun x -> zt_of_n x.Store.id) rows) in
